@@ -1,7 +1,1556 @@
-//! C10 — not built yet.
-use lv_common::Ctx;
+//! C10 — Bitswap accepts Shwap blocks only when they verify against the DAH (`ShwapMultihasher`,
+//! `get_block_container`), plus the node half of C15: `convert_cid` / `sample_cid` round trips
+//! (sub-check `c15-convert-cid`, labels prefixed `cc-`).
+//!
+//! Hooks: `lumina_node::verif::shwap` (additive wrappers around the crate-private items).
+use std::sync::Arc;
 
-pub fn run(_ctx: &mut Ctx) {
-    eprintln!("C10: check not built yet");
-    std::process::exit(2);
+use celestia_proto::bitswap::Block;
+use celestia_proto::proof::pb::Proof as RawProof;
+use celestia_proto::shwap::{Row as RawRow, RowNamespaceData as RawRowNs, Sample as RawSample, Share as RawShare, row::HalfSide};
+use celestia_types::nmt::Namespace;
+use celestia_types::row::{Row, RowId};
+use celestia_types::row_namespace_data::{RowNamespaceData, RowNamespaceDataId};
+use celestia_types::sample::{Sample, SampleId};
+use celestia_types::{AxisType, DataAvailabilityHeader, ExtendedDataSquare, ExtendedHeader};
+use cid::{Cid, CidGeneric};
+use lumina_node::store::{InMemoryStore, Store};
+use lumina_node::verif::shwap as hook;
+use lv_common::prelude::*;
+use lv_common::{Prng, no_panic};
+use lv_gen::panicsite::site_sig as panic_sig;
+use lv_gen::chain::{BlockSpec, ChainSpec, DahKind, TimeBase, build_chain};
+use lv_gen::mutate::{ByteMut, VARINT_BOUNDARIES, byte_mut_strategy, put_varint};
+use lv_gen::square::{SquareSpec, square_strategy, user_ns};
+use multihash::Multihash;
+use prost::Message;
+
+const NS: usize = 29;
+const SHARE: usize = 512;
+const PARITY_NS: [u8; NS] = [0xff; NS];
+
+/// (cid codec, multihash code, digest size)
+const SAMPLE: (u64, u64, usize) = (0x7810, 0x7811, 12);
+const ROW: (u64, u64, usize) = (0x7800, 0x7801, 10);
+const ROWNS: (u64, u64, usize) = (0x7820, 0x7821, 39);
+
+// ------------------------------------------------------------------------------------------ recipe
+
+#[derive(Clone, Debug, Serialize, Deserialize)]
+pub enum NsSel {
+    Present(u16),
+    AbsentInRange(u16),
+    Below,
+    Above,
+    Tx,
+    Pfb,
+    PrimaryPadding,
+    TailPadding,
+    Parity,
+    User(u16),
+}
+
+#[derive(Clone, Debug, Serialize, Deserialize)]
+pub enum Kind {
+    Sample { r: u16, c: u16, col_axis: bool },
+    Row { i: u16 },
+    RowNs { ns: NsSel, row: u16 },
+}
+
+#[derive(Clone, Debug, Serialize, Deserialize)]
+pub enum ProofMut {
+    ShiftRange { ds: i8, de: i8 },
+    SetStart { k: u8 },
+    SetEnd { k: u8 },
+    DropNode { i: u16 },
+    DupNode { i: u16 },
+    SwapNodes { i: u16, j: u16 },
+    TruncNodes { n: u16 },
+    ClearNodes,
+    /// node replaced by a node of the honest proof of another position of the same axis / row
+    ForeignNode { i: u16, sel: u16 },
+    FlipNodeByte { i: u16, byte: u16, bit: u8 },
+    /// min and max namespace of a node exchanged (violates min <= max unless equal)
+    NodeNsSwap { i: u16 },
+    /// node's namespaces overwritten by the PARITY / zero namespace
+    NodeNsSet { i: u16, high: bool },
+    /// 0 = cleared, 1 = garbage, 2 = a node of the proof, 3 = flipped bit
+    LeafHash { how: u8 },
+    FlipIgnoreMax,
+    /// pad the node list to n entries by repeating the last node
+    ManyNodes { n: u8 },
+    DropProof,
+}
+
+#[derive(Clone, Debug, Serialize, Deserialize)]
+pub enum ContMut {
+    Proof(ProofMut),
+    AlterShare { share: u16, pos: u16, bit: u8 },
+    /// share replaced by the share at another position of the square
+    ForeignShare { share: u16, r: u16, c: u16 },
+    DropShare { i: u16 },
+    DupShare { i: u16 },
+    SwapShares { a: u16, b: u16 },
+    ClearShares,
+    /// shares of the neighbouring namespace of the row added (front or back)
+    AddNeighbour { back: bool },
+    ReverseShares,
+    /// Sample: flip the axis flag; Row: flip the half-side flag
+    FlipFlag,
+    /// proof replaced by the honest proof of another position / row / namespace
+    ProofOf { a: u16, b: u16 },
+    /// Row: the right half with the Right flag (an alternative honest encoding)
+    RightHalf,
+}
+
+#[derive(Clone, Debug, Serialize, Deserialize)]
+pub enum CidFault {
+    Codec { how: u8 },
+    MhCode { how: u8 },
+    /// digest shortened / extended by one byte (length field consistent)
+    DigestLen { longer: bool },
+    /// length field differs from the digest length
+    LenField { longer: bool },
+    ZeroHeight,
+    InvalidNamespace { how: u8 },
+    Trailing { n: u8 },
+    Version { v: u8 },
+    V0,
+    Empty,
+    Bytes(ByteMut),
+}
+
+#[derive(Clone, Debug, Serialize, Deserialize)]
+pub enum Fault {
+    None,
+    /// id of a height that is not in the store: 0 = head+1, 1 = below the first, 2 = u64::MAX, 3 = 2^63, 4 = head + 2^32
+    UnknownHeight { how: u8 },
+    /// id of another stored height, container of this height
+    OtherHeight { hsel: u16 },
+    /// id of another coordinate / row / namespace of the same square: 0 = same row other column (Row
+    /// ns: other namespace), 1 = other row same column (RowNs: other row), 2 = anything
+    OtherId { how: u8, a: u16, b: u16 },
+    /// honest container of another type under this id
+    OtherType { which: bool },
+    Cid(CidFault),
+    /// multihash_code argument of another Shwap type while the CID keeps its own type
+    CodeMismatch { which: bool },
+    /// multihash_code argument that is no Shwap code
+    UnknownCode { how: u8 },
+    Container(ContMut),
+    Container2(ContMut, ContMut),
+    ContainerBytes(Vec<ByteMut>),
+    BlockBytes(Vec<ByteMut>),
+    TruncBlock { pos: u16 },
+    EmptyContainer,
+    EmptyBlock,
+}
+
+#[derive(Clone, Debug, Serialize, Deserialize)]
+pub struct BlockCase {
+    pub hsel: u16,
+    pub kind: Kind,
+    pub fault: Fault,
+    /// selector for the `get_block_container` sub-check's expected CID
+    pub esel: u8,
+}
+
+#[derive(Clone, Debug, Serialize, Deserialize)]
+pub struct Case {
+    pub seed: u64,
+    pub app: u8,
+    pub start_height: u64,
+    pub validators: u8,
+    pub squares: Vec<Option<SquareSpec>>,
+    pub blocks: Vec<BlockCase>,
+}
+
+fn ns_sel_strategy() -> impl Strategy<Value = NsSel> {
+    prop_oneof![
+        8 => any::<u16>().prop_map(NsSel::Present),
+        3 => any::<u16>().prop_map(NsSel::AbsentInRange),
+        1 => Just(NsSel::Below),
+        1 => Just(NsSel::Above),
+        1 => Just(NsSel::Tx),
+        1 => Just(NsSel::Pfb),
+        1 => Just(NsSel::PrimaryPadding),
+        1 => Just(NsSel::TailPadding),
+        1 => Just(NsSel::Parity),
+        2 => prop_oneof![1u16..14, any::<u16>()].prop_map(NsSel::User),
+    ]
+}
+
+fn kind_strategy() -> impl Strategy<Value = Kind> {
+    prop_oneof![
+        3 => (any::<u16>(), any::<u16>(), any::<bool>()).prop_map(|(r, c, col_axis)| Kind::Sample { r, c, col_axis }),
+        2 => any::<u16>().prop_map(|i| Kind::Row { i }),
+        4 => (ns_sel_strategy(), any::<u16>()).prop_map(|(ns, row)| Kind::RowNs { ns, row }),
+    ]
+}
+
+fn proof_mut_strategy() -> impl Strategy<Value = ProofMut> {
+    prop_oneof![
+        3 => (-2i8..=2, -2i8..=2).prop_map(|(ds, de)| ProofMut::ShiftRange { ds, de }),
+        1 => (0u8..16).prop_map(|k| ProofMut::SetStart { k }),
+        1 => (0u8..16).prop_map(|k| ProofMut::SetEnd { k }),
+        3 => any::<u16>().prop_map(|i| ProofMut::DropNode { i }),
+        1 => any::<u16>().prop_map(|i| ProofMut::DupNode { i }),
+        2 => (any::<u16>(), any::<u16>()).prop_map(|(i, j)| ProofMut::SwapNodes { i, j }),
+        2 => any::<u16>().prop_map(|n| ProofMut::TruncNodes { n }),
+        1 => Just(ProofMut::ClearNodes),
+        2 => (any::<u16>(), any::<u16>()).prop_map(|(i, sel)| ProofMut::ForeignNode { i, sel }),
+        2 => (any::<u16>(), any::<u16>(), 0u8..8).prop_map(|(i, byte, bit)| ProofMut::FlipNodeByte { i, byte, bit }),
+        1 => any::<u16>().prop_map(|i| ProofMut::NodeNsSwap { i }),
+        2 => (any::<u16>(), any::<bool>()).prop_map(|(i, high)| ProofMut::NodeNsSet { i, high }),
+        2 => (0u8..4).prop_map(|how| ProofMut::LeafHash { how }),
+        1 => Just(ProofMut::FlipIgnoreMax),
+        1 => prop_oneof![Just(7u8), Just(63), Just(64), Just(65)].prop_map(|n| ProofMut::ManyNodes { n }),
+        1 => Just(ProofMut::DropProof),
+    ]
+}
+
+fn cont_mut_strategy() -> impl Strategy<Value = ContMut> {
+    prop_oneof![
+        10 => proof_mut_strategy().prop_map(ContMut::Proof),
+        3 => (any::<u16>(), any::<u16>(), 0u8..8).prop_map(|(share, pos, bit)| ContMut::AlterShare { share, pos, bit }),
+        3 => (any::<u16>(), any::<u16>(), any::<u16>()).prop_map(|(share, r, c)| ContMut::ForeignShare { share, r, c }),
+        2 => any::<u16>().prop_map(|i| ContMut::DropShare { i }),
+        1 => any::<u16>().prop_map(|i| ContMut::DupShare { i }),
+        2 => (any::<u16>(), any::<u16>()).prop_map(|(a, b)| ContMut::SwapShares { a, b }),
+        1 => Just(ContMut::ClearShares),
+        2 => any::<bool>().prop_map(|back| ContMut::AddNeighbour { back }),
+        1 => Just(ContMut::ReverseShares),
+        1 => Just(ContMut::FlipFlag),
+        3 => (any::<u16>(), any::<u16>()).prop_map(|(a, b)| ContMut::ProofOf { a, b }),
+        1 => Just(ContMut::RightHalf),
+    ]
+}
+
+fn cid_fault_strategy() -> impl Strategy<Value = CidFault> {
+    prop_oneof![
+        2 => (0u8..4).prop_map(|how| CidFault::Codec { how }),
+        2 => (0u8..4).prop_map(|how| CidFault::MhCode { how }),
+        2 => any::<bool>().prop_map(|longer| CidFault::DigestLen { longer }),
+        1 => any::<bool>().prop_map(|longer| CidFault::LenField { longer }),
+        2 => Just(CidFault::ZeroHeight),
+        2 => (0u8..4).prop_map(|how| CidFault::InvalidNamespace { how }),
+        1 => (1u8..4).prop_map(|n| CidFault::Trailing { n }),
+        1 => prop_oneof![Just(0u8), Just(2), Just(3), Just(0x12)].prop_map(|v| CidFault::Version { v }),
+        1 => Just(CidFault::V0),
+        1 => Just(CidFault::Empty),
+        2 => byte_mut_strategy().prop_map(CidFault::Bytes),
+    ]
+}
+
+fn fault_strategy() -> impl Strategy<Value = Fault> {
+    prop_oneof![
+        6 => Just(Fault::None),
+        2 => (0u8..5).prop_map(|how| Fault::UnknownHeight { how }),
+        2 => any::<u16>().prop_map(|hsel| Fault::OtherHeight { hsel }),
+        6 => (0u8..3, any::<u16>(), any::<u16>()).prop_map(|(how, a, b)| Fault::OtherId { how, a, b }),
+        1 => any::<bool>().prop_map(|which| Fault::OtherType { which }),
+        6 => cid_fault_strategy().prop_map(Fault::Cid),
+        1 => any::<bool>().prop_map(|which| Fault::CodeMismatch { which }),
+        1 => (0u8..5).prop_map(|how| Fault::UnknownCode { how }),
+        20 => cont_mut_strategy().prop_map(Fault::Container),
+        4 => (cont_mut_strategy(), cont_mut_strategy()).prop_map(|(a, b)| Fault::Container2(a, b)),
+        3 => prop::collection::vec(byte_mut_strategy(), 1..4).prop_map(Fault::ContainerBytes),
+        2 => prop::collection::vec(byte_mut_strategy(), 1..3).prop_map(Fault::BlockBytes),
+        1 => any::<u16>().prop_map(|pos| Fault::TruncBlock { pos }),
+        1 => Just(Fault::EmptyContainer),
+        1 => Just(Fault::EmptyBlock),
+    ]
+}
+
+fn case_strategy(nblocks: usize, max_log2: u8) -> impl Strategy<Value = Case> {
+    (
+        any::<u64>(),
+        1u8..=7,
+        prop_oneof![3 => Just(1u64), 2 => 2u64..1000, 1 => (1u64 << 32)..(1u64 << 40)],
+        1u8..=3,
+        prop::collection::vec(prop_oneof![1 => Just(None), 6 => square_strategy(0, max_log2).prop_map(Some)], 3..=8),
+        prop::collection::vec((any::<u16>(), kind_strategy(), fault_strategy(), any::<u8>()).prop_map(|(hsel, kind, fault, esel)| BlockCase { hsel, kind, fault, esel }), 1..=2 * nblocks),
+    )
+        .prop_map(|(seed, app, start_height, validators, squares, blocks)| Case { seed, app, start_height, validators, squares, blocks })
+}
+
+// ------------------------------------------------------------------------------------------ reference index
+
+struct Hdr {
+    height: u64,
+    eds: ExtendedDataSquare,
+    dah: DataAvailabilityHeader,
+    w: u16,
+    /// distinct namespaces of the ODS, sorted
+    present: Vec<[u8; NS]>,
+}
+
+struct Env {
+    store: Arc<InMemoryStore>,
+    hdrs: Vec<Hdr>,
+}
+
+impl Env {
+    fn by_height(&self, h: u64) -> Option<&Hdr> {
+        self.hdrs.iter().find(|x| x.height == h)
+    }
+}
+
+fn share_ns(h: &Hdr, r: u16, c: u16) -> [u8; NS] {
+    let half = h.w / 2;
+    if r < half && c < half {
+        h.eds.share(r, c).unwrap().as_ref()[..NS].try_into().unwrap()
+    } else {
+        PARITY_NS
+    }
+}
+
+/// brute-force scan: shares of `ns` in row `row`
+fn scan_row(h: &Hdr, row: u16, ns: &[u8; NS]) -> Vec<Vec<u8>> {
+    (0..h.w).filter(|c| &share_ns(h, row, *c) == ns).map(|c| h.eds.share(row, c).unwrap().to_vec()).collect()
+}
+
+fn row_values(h: &Hdr, i: u16) -> Vec<Vec<u8>> {
+    (0..h.w).map(|c| h.eds.share(i, c).unwrap().to_vec()).collect()
+}
+
+fn ns_valid(b: &[u8]) -> bool {
+    b.len() == NS && match b[0] {
+        0 => b[1..19].iter().all(|x| *x == 0),
+        255 => b[1..28].iter().all(|x| *x == 0xff),
+        _ => false,
+    }
+}
+
+fn ns_incr(b: &[u8; NS]) -> [u8; NS] {
+    let mut o = *b;
+    for i in (0..NS).rev() {
+        if o[i] == 0xff {
+            o[i] = 0;
+        } else {
+            o[i] += 1;
+            break;
+        }
+    }
+    o
+}
+
+fn resolve_ns(h: &Hdr, sel: &NsSel) -> [u8; NS] {
+    let arr = |n: Namespace| -> [u8; NS] { n.as_bytes().try_into().unwrap() };
+    match sel {
+        NsSel::Present(s) => h.present[pick(*s, h.present.len())],
+        NsSel::AbsentInRange(s) => {
+            let gaps: Vec<[u8; NS]> = h.present.windows(2).map(|p| ns_incr(&p[0])).filter(|n| ns_valid(n) && !h.present.contains(n)).collect();
+            if gaps.is_empty() { arr(user_ns(*s | 1)) } else { gaps[pick(*s, gaps.len())] }
+        }
+        NsSel::Below => [0u8; NS],
+        NsSel::Above => {
+            let mut n = PARITY_NS;
+            n[NS - 1] = 0xfd;
+            n
+        }
+        NsSel::Tx => arr(Namespace::TRANSACTION),
+        NsSel::Pfb => arr(Namespace::PAY_FOR_BLOB),
+        NsSel::PrimaryPadding => arr(Namespace::PRIMARY_RESERVED_PADDING),
+        NsSel::TailPadding => arr(Namespace::TAIL_PADDING),
+        NsSel::Parity => PARITY_NS,
+        NsSel::User(k) => arr(user_ns((*k).max(1))),
+    }
+}
+
+// ------------------------------------------------------------------------------------------ ids and CIDs (hand encoded)
+
+#[derive(Clone, Debug, PartialEq)]
+enum Id {
+    Sample { h: u64, r: u16, c: u16 },
+    Row { h: u64, i: u16 },
+    RowNs { h: u64, i: u16, ns: [u8; NS] },
+}
+
+impl Id {
+    fn ty(&self) -> (u64, u64, usize) {
+        match self {
+            Id::Sample { .. } => SAMPLE,
+            Id::Row { .. } => ROW,
+            Id::RowNs { .. } => ROWNS,
+        }
+    }
+    fn height(&self) -> u64 {
+        match self {
+            Id::Sample { h, .. } | Id::Row { h, .. } | Id::RowNs { h, .. } => *h,
+        }
+    }
+    fn with_height(&self, nh: u64) -> Id {
+        let mut o = self.clone();
+        match &mut o {
+            Id::Sample { h, .. } | Id::Row { h, .. } | Id::RowNs { h, .. } => *h = nh,
+        }
+        o
+    }
+    fn digest(&self) -> Vec<u8> {
+        let mut d = Vec::new();
+        match self {
+            Id::Sample { h, r, c } => {
+                d.extend_from_slice(&h.to_be_bytes());
+                d.extend_from_slice(&r.to_be_bytes());
+                d.extend_from_slice(&c.to_be_bytes());
+            }
+            Id::Row { h, i } => {
+                d.extend_from_slice(&h.to_be_bytes());
+                d.extend_from_slice(&i.to_be_bytes());
+            }
+            Id::RowNs { h, i, ns } => {
+                d.extend_from_slice(&h.to_be_bytes());
+                d.extend_from_slice(&i.to_be_bytes());
+                d.extend_from_slice(ns);
+            }
+        }
+        d
+    }
+    fn cid_bytes(&self) -> Vec<u8> {
+        let (codec, code, _) = self.ty();
+        cid_bytes(1, codec, code, &self.digest())
+    }
+    fn multihash_bytes(&self) -> Vec<u8> {
+        let (_, code, _) = self.ty();
+        let d = self.digest();
+        let mut o = Vec::new();
+        put_varint(&mut o, code);
+        put_varint(&mut o, d.len() as u64);
+        o.extend_from_slice(&d);
+        o
+    }
+}
+
+fn cid_bytes(version: u64, codec: u64, code: u64, digest: &[u8]) -> Vec<u8> {
+    let mut o = Vec::new();
+    put_varint(&mut o, version);
+    put_varint(&mut o, codec);
+    put_varint(&mut o, code);
+    put_varint(&mut o, digest.len() as u64);
+    o.extend_from_slice(digest);
+    o
+}
+
+fn read_varint(b: &[u8], i: &mut usize) -> Option<u64> {
+    let mut v = 0u64;
+    for k in 0..10 {
+        let x = *b.get(*i)?;
+        *i += 1;
+        v |= ((x & 0x7f) as u64) << (7 * k);
+        if x & 0x80 == 0 {
+            return Some(v);
+        }
+    }
+    None
+}
+
+/// reference parser of the CID embedded in a block under multihash code `code` (prefix parse, like
+/// `Cid::read_bytes`): Some(id) iff it is a well-formed identifier of the type `code` selects
+fn ref_parse_id(cid: &[u8], code: u64) -> Option<Id> {
+    let ty = [SAMPLE, ROW, ROWNS].into_iter().find(|t| t.1 == code)?;
+    let mut i = 0;
+    if read_varint(cid, &mut i)? != 1 || read_varint(cid, &mut i)? != ty.0 || read_varint(cid, &mut i)? != ty.1 {
+        return None;
+    }
+    let len = read_varint(cid, &mut i)? as usize;
+    if len != ty.2 {
+        return None;
+    }
+    let d = cid.get(i..i + len)?;
+    let h = u64::from_be_bytes(d[..8].try_into().unwrap());
+    if h == 0 {
+        return None;
+    }
+    let a = u16::from_be_bytes(d[8..10].try_into().unwrap());
+    Some(match code {
+        c if c == SAMPLE.1 => Id::Sample { h, r: a, c: u16::from_be_bytes(d[10..12].try_into().unwrap()) },
+        c if c == ROW.1 => Id::Row { h, i: a },
+        _ => {
+            let ns: [u8; NS] = d[10..].try_into().unwrap();
+            if !ns_valid(&ns) {
+                return None;
+            }
+            Id::RowNs { h, i: a, ns }
+        }
+    })
+}
+
+// ------------------------------------------------------------------------------------------ containers
+
+#[derive(Clone, Debug)]
+enum RawC {
+    Sample(RawSample),
+    Row(RawRow),
+    RowNs(RawRowNs),
+}
+
+impl RawC {
+    fn encode(&self) -> Vec<u8> {
+        match self {
+            RawC::Sample(s) => s.encode_to_vec(),
+            RawC::Row(r) => r.encode_to_vec(),
+            RawC::RowNs(r) => r.encode_to_vec(),
+        }
+    }
+    fn proof_mut(&mut self) -> Option<&mut Option<RawProof>> {
+        match self {
+            RawC::Sample(s) => Some(&mut s.proof),
+            RawC::RowNs(r) => Some(&mut r.proof),
+            RawC::Row(_) => None,
+        }
+    }
+}
+
+fn honest_sample(h: &Hdr, r: u16, c: u16, col_axis: bool) -> RawSample {
+    let axis = if col_axis { AxisType::Col } else { AxisType::Row };
+    RawSample::from(Sample::new(r, c, axis, &h.eds).expect("in range"))
+}
+
+fn raw_half(h: &Hdr, i: u16, right: bool) -> RawRow {
+    let half = h.w / 2;
+    let cols = if right { half..h.w } else { 0..half };
+    RawRow {
+        shares_half: cols.map(|c| RawShare { data: h.eds.share(i, c).unwrap().to_vec() }).collect(),
+        half_side: if right { HalfSide::Right as i32 } else { HalfSide::Left as i32 },
+    }
+}
+
+/// honest row-namespace-data of (ns, row); `.1` = the row's root range covers ns (an honest server
+/// would serve this container)
+fn honest_rowns(h: &Hdr, ns: &[u8; NS], row: u16) -> (RawRowNs, bool) {
+    let n = Namespace::from_raw(ns).expect("valid namespace");
+    let rows = h.eds.get_namespace_data(n, &h.dah, h.height).expect("get_namespace_data");
+    if let Some((_, d)) = rows.into_iter().find(|(id, _)| id.row_index() == row) {
+        return (RawRowNs::from(d), true);
+    }
+    let proof = h.eds.row_nmt(row).expect("row nmt").get_namespace_proof(*n);
+    let d = RowNamespaceData { proof: proof.into(), shares: vec![] };
+    (RawRowNs::from(d), false)
+}
+
+fn resolve_kind(h: &Hdr, k: &Kind) -> (Id, RawC, bool) {
+    let w = h.w as usize;
+    match k {
+        Kind::Sample { r, c, col_axis } => {
+            let (r, c) = (pick(*r, w) as u16, pick(*c, w) as u16);
+            (Id::Sample { h: h.height, r, c }, RawC::Sample(honest_sample(h, r, c, *col_axis)), true)
+        }
+        Kind::Row { i } => {
+            let i = pick(*i, w) as u16;
+            (Id::Row { h: h.height, i }, RawC::Row(raw_half(h, i, false)), true)
+        }
+        Kind::RowNs { ns, row } => {
+            let ns = resolve_ns(h, ns);
+            // bias towards rows that hold the namespace
+            let holding: Vec<u16> = (0..h.w).filter(|r| !scan_row(h, *r, &ns).is_empty()).collect();
+            let row = if !holding.is_empty() && *row % 4 != 0 { holding[pick(*row, holding.len())] } else { pick(*row, w) as u16 };
+            let (raw, served) = honest_rowns(h, &ns, row);
+            (Id::RowNs { h: h.height, i: row, ns }, RawC::RowNs(raw), served)
+        }
+    }
+}
+
+fn apply_proof_mut(m: &ProofMut, slot: &mut Option<RawProof>, foreign: &dyn Fn(u16) -> Option<RawProof>) -> &'static str {
+    if let ProofMut::DropProof = m {
+        *slot = None;
+        return "proof-dropped";
+    }
+    let Some(p) = slot.as_mut() else { return "proof-missing" };
+    let n = p.nodes.len();
+    match m {
+        ProofMut::ShiftRange { ds, de } => {
+            p.start = p.start.wrapping_add(*ds as i64);
+            p.end = p.end.wrapping_add(*de as i64);
+            "proof-shift-range"
+        }
+        ProofMut::SetStart { k } => {
+            p.start = VARINT_BOUNDARIES[*k as usize % 16] as i64;
+            "proof-set-start"
+        }
+        ProofMut::SetEnd { k } => {
+            p.end = VARINT_BOUNDARIES[*k as usize % 16] as i64;
+            "proof-set-end"
+        }
+        ProofMut::DropNode { i } => {
+            if n > 0 {
+                p.nodes.remove(pick(*i, n));
+            }
+            "proof-drop-node"
+        }
+        ProofMut::DupNode { i } => {
+            if n > 0 {
+                let k = pick(*i, n);
+                let x = p.nodes[k].clone();
+                p.nodes.insert(k, x);
+            }
+            "proof-dup-node"
+        }
+        ProofMut::SwapNodes { i, j } => {
+            if n > 1 {
+                p.nodes.swap(pick(*i, n), pick(*j, n));
+            }
+            "proof-swap-nodes"
+        }
+        ProofMut::TruncNodes { n: keep } => {
+            p.nodes.truncate(pick(*keep, n));
+            "proof-trunc-nodes"
+        }
+        ProofMut::ClearNodes => {
+            p.nodes.clear();
+            "proof-clear-nodes"
+        }
+        ProofMut::ForeignNode { i, sel } => {
+            if let Some(f) = foreign(*sel) {
+                if n > 0 && !f.nodes.is_empty() {
+                    let k = pick(*i, n.min(f.nodes.len()));
+                    p.nodes[k] = f.nodes[k].clone();
+                }
+            }
+            "proof-foreign-node"
+        }
+        ProofMut::FlipNodeByte { i, byte, bit } => {
+            if n > 0 {
+                let k = pick(*i, n);
+                let l = p.nodes[k].len();
+                if l > 0 {
+                    p.nodes[k][pick(*byte, l)] ^= 1 << (bit % 8);
+                }
+            }
+            "proof-flip-node-byte"
+        }
+        ProofMut::NodeNsSwap { i } => {
+            if n > 0 {
+                let k = pick(*i, n);
+                if p.nodes[k].len() >= 2 * NS {
+                    let (a, b) = p.nodes[k].split_at_mut(NS);
+                    a.swap_with_slice(&mut b[..NS]);
+                }
+            }
+            "proof-node-ns-swap"
+        }
+        ProofMut::NodeNsSet { i, high } => {
+            if n > 0 {
+                let k = pick(*i, n);
+                if p.nodes[k].len() >= 2 * NS {
+                    let v = if *high { 0xff } else { 0 };
+                    p.nodes[k][..2 * NS].fill(v);
+                }
+            }
+            "proof-node-ns-set"
+        }
+        ProofMut::LeafHash { how } => {
+            match how {
+                0 => p.leaf_hash.clear(),
+                1 => p.leaf_hash = vec![0xab; 90],
+                2 => p.leaf_hash = p.nodes.first().cloned().unwrap_or_else(|| vec![1; 90]),
+                _ => {
+                    if p.leaf_hash.is_empty() {
+                        p.leaf_hash = vec![7; 5];
+                    } else {
+                        let l = p.leaf_hash.len();
+                        p.leaf_hash[l - 1] ^= 1;
+                    }
+                }
+            }
+            "proof-leaf-hash"
+        }
+        ProofMut::FlipIgnoreMax => {
+            p.is_max_namespace_ignored = !p.is_max_namespace_ignored;
+            "proof-flip-ignore-max"
+        }
+        ProofMut::ManyNodes { n: want } => {
+            let last = p.nodes.last().cloned().unwrap_or_else(|| vec![0; 90]);
+            while p.nodes.len() < *want as usize {
+                p.nodes.push(last.clone());
+            }
+            "proof-many-nodes"
+        }
+        ProofMut::DropProof => unreachable!(),
+    }
+}
+
+fn apply_cont_mut(m: &ContMut, raw: &mut RawC, h: &Hdr, id: &Id) -> &'static str {
+    let w = h.w as usize;
+    // the shares list of the container
+    fn shares_of(raw: &mut RawC) -> Vec<RawShare> {
+        match raw {
+            RawC::Sample(s) => s.share.clone().into_iter().collect(),
+            RawC::Row(r) => r.shares_half.clone(),
+            RawC::RowNs(r) => r.shares.clone(),
+        }
+    }
+    fn set_shares(raw: &mut RawC, v: Vec<RawShare>) {
+        match raw {
+            RawC::Sample(s) => s.share = v.into_iter().next(),
+            RawC::Row(r) => r.shares_half = v,
+            RawC::RowNs(r) => r.shares = v,
+        }
+    }
+    let mut sh = shares_of(raw);
+    let n = sh.len();
+    match m {
+        ContMut::Proof(pm) => {
+            let foreign = |sel: u16| -> Option<RawProof> {
+                match id {
+                    Id::Sample { r, c, .. } => {
+                        let o = pick(sel, w) as u16;
+                        // a proof of another position on the same row (row axis proof)
+                        let _ = c;
+                        honest_sample(h, *r, o, false).proof
+                    }
+                    Id::RowNs { ns, .. } => honest_rowns(h, ns, pick(sel, w) as u16).0.proof,
+                    Id::Row { .. } => None,
+                }
+            };
+            match raw.proof_mut() {
+                Some(slot) => apply_proof_mut(pm, slot, &foreign),
+                None => {
+                    // rows carry no proof: alter a share instead
+                    if let RawC::Row(r) = raw {
+                        if let Some(s) = r.shares_half.first_mut() {
+                            s.data[SHARE - 1] ^= 1;
+                        }
+                    }
+                    "row-alter-share"
+                }
+            }
+        }
+        ContMut::AlterShare { share, pos, bit } => {
+            if n > 0 {
+                let k = pick(*share, n);
+                let l = sh[k].data.len();
+                if l > 0 {
+                    sh[k].data[pick(*pos, l)] ^= 1 << (bit % 8);
+                }
+                set_shares(raw, sh);
+            }
+            "alter-share"
+        }
+        ContMut::ForeignShare { share, r, c } => {
+            let f = RawShare { data: h.eds.share(pick(*r, w) as u16, pick(*c, w) as u16).unwrap().to_vec() };
+            if n > 0 {
+                sh[pick(*share, n)] = f;
+            } else {
+                sh.push(f);
+            }
+            set_shares(raw, sh);
+            "foreign-share"
+        }
+        ContMut::DropShare { i } => {
+            if n > 0 {
+                sh.remove(pick(*i, n));
+                set_shares(raw, sh);
+            }
+            "drop-share"
+        }
+        ContMut::DupShare { i } => {
+            if n > 0 {
+                let k = pick(*i, n);
+                let x = sh[k].clone();
+                sh.insert(k, x);
+                if !matches!(raw, RawC::Sample(_)) {
+                    set_shares(raw, sh);
+                }
+            }
+            "dup-share"
+        }
+        ContMut::SwapShares { a, b } => {
+            if n > 1 {
+                sh.swap(pick(*a, n), pick(*b, n));
+                set_shares(raw, sh);
+            }
+            "swap-shares"
+        }
+        ContMut::ClearShares => {
+            set_shares(raw, vec![]);
+            "clear-shares"
+        }
+        ContMut::AddNeighbour { back } => {
+            if let Id::RowNs { i, ns, .. } = id {
+                // neighbouring namespace in that row
+                let row_ns: Vec<[u8; NS]> = (0..h.w).map(|c| share_ns(h, *i, c)).collect();
+                let nb = if *back { row_ns.iter().find(|x| *x > ns) } else { row_ns.iter().rev().find(|x| *x < ns) };
+                if let Some(nb) = nb {
+                    let extra: Vec<RawShare> = scan_row(h, *i, nb).into_iter().map(|data| RawShare { data }).collect();
+                    if *back {
+                        sh.extend(extra);
+                    } else {
+                        let mut e = extra;
+                        e.extend(sh);
+                        sh = e;
+                    }
+                    set_shares(raw, sh);
+                }
+            }
+            "add-neighbour-shares"
+        }
+        ContMut::ReverseShares => {
+            sh.reverse();
+            set_shares(raw, sh);
+            "reverse-shares"
+        }
+        ContMut::FlipFlag => {
+            match raw {
+                RawC::Sample(s) => s.proof_type = if s.proof_type == AxisType::Row as i32 { AxisType::Col as i32 } else { AxisType::Row as i32 },
+                RawC::Row(r) => r.half_side = if r.half_side == HalfSide::Left as i32 { HalfSide::Right as i32 } else { HalfSide::Left as i32 },
+                RawC::RowNs(r) => {
+                    if let Some(p) = r.proof.as_mut() {
+                        p.is_max_namespace_ignored = !p.is_max_namespace_ignored;
+                    }
+                }
+            }
+            "flip-flag"
+        }
+        ContMut::ProofOf { a, b } => {
+            match (raw, id) {
+                (RawC::Sample(s), Id::Sample { .. }) => {
+                    s.proof = honest_sample(h, pick(*a, w) as u16, pick(*b, w) as u16, s.proof_type == AxisType::Col as i32).proof;
+                }
+                (RawC::RowNs(r), Id::RowNs { ns, i, .. }) => {
+                    // proof of the same namespace in another row, or of another namespace in this row
+                    if a % 2 == 0 {
+                        r.proof = honest_rowns(h, ns, pick(*b, w) as u16).0.proof;
+                    } else {
+                        let o = h.present[pick(*b, h.present.len())];
+                        r.proof = honest_rowns(h, &o, *i).0.proof;
+                    }
+                }
+                (RawC::Row(r), _) => {
+                    *r = raw_half(h, pick(*a, w) as u16, b % 2 == 1);
+                }
+                _ => {}
+            }
+            "proof-of-other"
+        }
+        ContMut::RightHalf => {
+            if let (RawC::Row(r), Id::Row { i, .. }) = (raw, id) {
+                *r = raw_half(h, *i, true);
+            }
+            "row-right-half"
+        }
+    }
+}
+
+fn apply_cid_fault(f: &CidFault, id: &Id) -> (Vec<u8>, &'static str) {
+    let (codec, code, _) = id.ty();
+    let d = id.digest();
+    let others: Vec<(u64, u64, usize)> = [SAMPLE, ROW, ROWNS].into_iter().filter(|t| *t != id.ty()).collect();
+    match f {
+        CidFault::Codec { how } => {
+            let c = match how {
+                0 => others[0].0,
+                1 => others[1].0,
+                2 => 0x55,
+                _ => codec + 1,
+            };
+            (cid_bytes(1, c, code, &d), "cid-wrong-codec")
+        }
+        CidFault::MhCode { how } => {
+            let c = match how {
+                0 => others[0].1,
+                1 => others[1].1,
+                2 => 0x12,
+                _ => code + 1,
+            };
+            (cid_bytes(1, codec, c, &d), "cid-wrong-multihash-code")
+        }
+        CidFault::DigestLen { longer } => {
+            let mut d2 = d.clone();
+            if *longer {
+                d2.push(0);
+            } else {
+                d2.pop();
+            }
+            (cid_bytes(1, codec, code, &d2), "cid-wrong-length")
+        }
+        CidFault::LenField { longer } => {
+            let mut o = Vec::new();
+            put_varint(&mut o, 1);
+            put_varint(&mut o, codec);
+            put_varint(&mut o, code);
+            put_varint(&mut o, if *longer { d.len() as u64 + 1 } else { d.len() as u64 - 1 });
+            o.extend_from_slice(&d);
+            (o, "cid-length-field-mismatch")
+        }
+        CidFault::ZeroHeight => (id.with_height(0).cid_bytes(), "cid-zero-height"),
+        CidFault::InvalidNamespace { how } => match id {
+            Id::RowNs { h, i, ns } => {
+                let mut n = *ns;
+                match how {
+                    0 => n[0] = 1,
+                    1 => {
+                        n[0] = 0;
+                        n[5] = 1;
+                    }
+                    2 => {
+                        n = [0xff; NS];
+                        n[10] = 0;
+                    }
+                    _ => n[0] = 254,
+                }
+                (Id::RowNs { h: *h, i: *i, ns: n }.cid_bytes(), "cid-invalid-namespace")
+            }
+            _ => (id.with_height(0).cid_bytes(), "cid-zero-height"),
+        },
+        CidFault::Trailing { n } => {
+            let mut b = id.cid_bytes();
+            b.extend(std::iter::repeat_n(0x01, *n as usize));
+            (b, "cid-trailing-bytes")
+        }
+        CidFault::Version { v } => (cid_bytes(*v as u64, codec, code, &d), "cid-wrong-version"),
+        CidFault::V0 => {
+            let mut b = vec![0x12, 0x20];
+            b.extend_from_slice(&[0x5a; 32]);
+            (b, "cid-v0")
+        }
+        CidFault::Empty => (vec![], "cid-empty"),
+        CidFault::Bytes(m) => (m.apply(&id.cid_bytes()), "cid-byte-mutation"),
+    }
+}
+
+struct Built {
+    /// multihash code passed to the hasher
+    code: u64,
+    block: Vec<u8>,
+    label: &'static str,
+    /// honest block for a stored header that an honest server would send
+    must_accept: bool,
+    /// the id the requester asked for (base id) — used as expected CID by get_block_container
+    base: Id,
+    faulty: bool,
+}
+
+fn build_block(env: &Env, bc: &BlockCase) -> Built {
+    let hi = pick(bc.hsel, env.hdrs.len());
+    let h = &env.hdrs[hi];
+    let w = h.w as usize;
+    let (base, honest, served) = resolve_kind(h, &bc.kind);
+    let mut id = base.clone();
+    let mut raw = honest.clone();
+    let mut code = base.ty().1;
+    let mut cid: Option<Vec<u8>> = None;
+    let mut container: Option<Vec<u8>> = None;
+    let mut whole: Option<Vec<u8>> = None;
+    let mut label: &'static str = match base {
+        Id::Sample { .. } => "honest-sample",
+        Id::Row { .. } => "honest-row",
+        Id::RowNs { .. } => {
+            if served {
+                "honest-rowns"
+            } else {
+                "rowns-row-outside-range"
+            }
+        }
+    };
+    let head = env.hdrs.last().unwrap().height;
+    let first = env.hdrs[0].height;
+    match &bc.fault {
+        Fault::None => {}
+        Fault::UnknownHeight { how } => {
+            let nh = match how {
+                0 => head + 1,
+                1 => {
+                    if first > 1 {
+                        first - 1
+                    } else {
+                        head + 7
+                    }
+                }
+                2 => u64::MAX,
+                3 => 1 << 63,
+                _ => head + (1 << 32),
+            };
+            id = base.with_height(nh);
+            label = "unknown-height";
+        }
+        Fault::OtherHeight { hsel } => {
+            let o = &env.hdrs[pick(*hsel, env.hdrs.len())];
+            id = base.with_height(o.height);
+            label = "other-stored-height";
+        }
+        Fault::OtherId { how, a, b } => {
+            let sb = *b;
+            let (a, b) = (pick(*a, w) as u16, pick(*b, w) as u16);
+            id = match &base {
+                Id::Sample { h, r, c } => match how {
+                    0 => Id::Sample { h: *h, r: *r, c: a },
+                    1 => Id::Sample { h: *h, r: a, c: *c },
+                    _ => Id::Sample { h: *h, r: a, c: b },
+                },
+                Id::Row { h, .. } => Id::Row { h: *h, i: a },
+                Id::RowNs { h: hh, i, ns } => match how {
+                    0 => Id::RowNs { h: *hh, i: *i, ns: h.present[pick(sb, h.present.len())] },
+                    1 => Id::RowNs { h: *hh, i: a, ns: *ns },
+                    _ => Id::RowNs { h: *hh, i: a, ns: ns_incr(ns) },
+                },
+            };
+            if let Id::RowNs { ns, .. } = &id {
+                if !ns_valid(ns) {
+                    id = base.clone();
+                }
+            }
+            label = match (&base, how) {
+                (Id::Sample { .. }, 0) => "other-id-sample-same-row",
+                (Id::Sample { .. }, 1) => "other-id-sample-same-col",
+                (Id::Sample { .. }, _) => "other-id-sample-elsewhere",
+                (Id::Row { .. }, _) => "other-id-row",
+                (Id::RowNs { .. }, 0) => "other-id-rowns-namespace",
+                (Id::RowNs { .. }, _) => "other-id-rowns-row",
+            };
+        }
+        Fault::OtherType { which } => {
+            raw = match (&base, which) {
+                (Id::Sample { r, .. }, false) => RawC::Row(raw_half(h, *r, false)),
+                (Id::Sample { r, c, .. }, true) => RawC::RowNs(honest_rowns(h, &share_ns(h, *r, *c), *r).0),
+                (Id::Row { i, .. }, false) => RawC::Sample(honest_sample(h, *i, 0, false)),
+                (Id::Row { i, .. }, true) => RawC::RowNs(honest_rowns(h, &share_ns(h, *i, 0), *i).0),
+                (Id::RowNs { i, .. }, false) => RawC::Row(raw_half(h, *i, false)),
+                (Id::RowNs { i, .. }, true) => RawC::Sample(honest_sample(h, *i, 0, false)),
+            };
+            label = "other-type-container";
+        }
+        Fault::Cid(f) => {
+            let (b, l) = apply_cid_fault(f, &base);
+            cid = Some(b);
+            label = l;
+        }
+        Fault::CodeMismatch { which } => {
+            let others: Vec<(u64, u64, usize)> = [SAMPLE, ROW, ROWNS].into_iter().filter(|t| *t != base.ty()).collect();
+            code = others[*which as usize].1;
+            label = "code-cid-type-mismatch";
+        }
+        Fault::UnknownCode { how } => {
+            code = match how {
+                0 => 0x12,
+                1 => 0,
+                2 => base.ty().0, // the codec instead of the multihash code
+                3 => u64::MAX,
+                _ => base.ty().1 + 0x100,
+            };
+            label = "unknown-multihash-code";
+        }
+        Fault::Container(m) => {
+            label = apply_cont_mut(m, &mut raw, h, &base);
+        }
+        Fault::Container2(m1, m2) => {
+            apply_cont_mut(m1, &mut raw, h, &base);
+            apply_cont_mut(m2, &mut raw, h, &base);
+            label = "two-container-mutations";
+        }
+        Fault::ContainerBytes(ms) => {
+            container = Some(lv_gen::mutate::apply_all(&honest.encode(), ms));
+            label = "container-byte-mutation";
+        }
+        Fault::BlockBytes(ms) => {
+            let b = Block { cid: base.cid_bytes(), container: honest.encode() }.encode_to_vec();
+            whole = Some(lv_gen::mutate::apply_all(&b, ms));
+            label = "block-byte-mutation";
+        }
+        Fault::TruncBlock { pos } => {
+            let b = Block { cid: base.cid_bytes(), container: honest.encode() }.encode_to_vec();
+            let p = pick(*pos, b.len());
+            whole = Some(b[..p].to_vec());
+            label = "truncated-block";
+        }
+        Fault::EmptyContainer => {
+            container = Some(vec![]);
+            label = "empty-container";
+        }
+        Fault::EmptyBlock => {
+            whole = Some(vec![]);
+            label = "empty-block";
+        }
+    }
+    let honest_block = Block { cid: base.cid_bytes(), container: honest.encode() }.encode_to_vec();
+    let block = whole.unwrap_or_else(|| {
+        Block { cid: cid.unwrap_or_else(|| id.cid_bytes()), container: container.unwrap_or_else(|| raw.encode()) }.encode_to_vec()
+    });
+    let unchanged = block == honest_block && code == base.ty().1;
+    // an alternative honest encoding of a row (right half) must be accepted as well
+    let alt_honest = matches!(&bc.fault, Fault::Container(ContMut::RightHalf)) && matches!(base, Id::Row { .. });
+    if unchanged && !matches!(bc.fault, Fault::None) {
+        label = "fault-noop";
+    }
+    Built {
+        code,
+        block,
+        label,
+        must_accept: (unchanged && served) || alt_honest,
+        base,
+        faulty: !unchanged,
+    }
+}
+
+// ------------------------------------------------------------------------------------------ oracle
+
+/// The container is exactly the data at `id` in the stored square (by value).
+fn container_is_data_at(h: &Hdr, id: &Id, container: &[u8]) -> Result<(), String> {
+    match id {
+        Id::Sample { r, c, .. } => {
+            if *r >= h.w || *c >= h.w {
+                return Err(format!("coordinates ({r},{c}) outside the square of width {}", h.w));
+            }
+            let raw = RawSample::decode(container).map_err(|e| format!("container is no Sample protobuf: {e}"))?;
+            let got = raw.share.map(|s| s.data).ok_or("sample without share")?;
+            if got != h.eds.share(*r, *c).unwrap().to_vec() {
+                return Err(format!("sample share is not eds.share({r},{c})"));
+            }
+        }
+        Id::Row { i, .. } => {
+            if *i >= h.w {
+                return Err(format!("row {i} outside the square of width {}", h.w));
+            }
+            let raw = RawRow::decode(container).map_err(|e| format!("container is no Row protobuf: {e}"))?;
+            let right = raw.half_side() == HalfSide::Right;
+            let got: Vec<Vec<u8>> = raw.shares_half.into_iter().map(|s| s.data).collect();
+            let want = row_values(h, *i);
+            let half = h.w as usize / 2;
+            let want_half = if right { &want[half..] } else { &want[..half] };
+            if got != want_half {
+                return Err(format!("row half ({}) is not the committed half of eds.row({i})", if right { "right" } else { "left" }));
+            }
+        }
+        Id::RowNs { i, ns, .. } => {
+            if *i >= h.w {
+                return Err(format!("row {i} outside the square of width {}", h.w));
+            }
+            let raw = RawRowNs::decode(container).map_err(|e| format!("container is no RowNamespaceData protobuf: {e}"))?;
+            let got: Vec<Vec<u8>> = raw.shares.into_iter().map(|s| s.data).collect();
+            let want = scan_row(h, *i, ns);
+            // Interpretation (see report): parity shares of a DATA row are invisible to namespace
+            // queries (the NMT ignores the max namespace, the row root's range excludes PARITY,
+            // `row_contains` is false and no caller requests it) — the empty answer is admitted too.
+            let parity_in_data_row = ns == &PARITY_NS && *i < h.w / 2;
+            if parity_in_data_row && got.is_empty() {
+                return Ok(());
+            }
+            if got != want {
+                return Err(format!("{} shares presented, brute-force scan of the namespace in row {i} has {} (or values differ)", got.len(), want.len()));
+            }
+        }
+    }
+    Ok(())
+}
+
+/// does lumina's own public decoder take the container under `id`? (used only for the non-trivial rule)
+fn container_decodes(id: &Id, container: &[u8]) -> bool {
+    no_panic(|| match id {
+        Id::Sample { h, r, c } => SampleId::new(*r, *c, *h).ok().map(|i| Sample::decode(i, container).is_ok()),
+        Id::Row { h, i } => RowId::new(*i, *h).ok().map(|x| Row::decode(x, container).is_ok()),
+        Id::RowNs { h, i, ns } => Namespace::from_raw(ns)
+            .ok()
+            .and_then(|n| RowNamespaceDataId::new(n, *i, *h).ok())
+            .map(|x| RowNamespaceData::decode(x, container).is_ok()),
+    })
+    .ok()
+    .flatten()
+    .unwrap_or(false)
+}
+
+fn judge_hash(obs: &mut Obs, env: &Env, b: &Built) -> Result<(), Failure> {
+    // reference view of the block
+    let ref_block = Block::decode(b.block.as_slice()).ok();
+    let ref_id = ref_block.as_ref().and_then(|blk| ref_parse_id(&blk.cid, b.code));
+    let ref_hdr = ref_id.as_ref().and_then(|i| env.by_height(i.height()));
+    let reaches_verify = match (&ref_block, &ref_id, ref_hdr) {
+        (Some(blk), Some(id), Some(_)) => container_decodes(id, &blk.container),
+        _ => false,
+    };
+    let nontrivial = b.faulty && reaches_verify;
+    obs.eval(nontrivial.then(|| digest_bytes(&b.block) ^ b.code.wrapping_mul(0x9E3779B97F4A7C15)));
+    obs.label(b.label);
+    if nontrivial {
+        obs.label("fault-reaches-container-verification");
+    }
+    let res = match no_panic(|| hook::multihasher_hash_kind(env.store.clone(), b.code, &b.block)) {
+        Ok(r) => r,
+        Err(rec) => {
+            obs.label("panicked");
+            return obs.fail(
+                &panic_sig(&rec),
+                format!("ShwapMultihasher::hash panicked ({}, code {:#x}, block {}): {rec}", b.label, b.code, hex::encode(&b.block[..b.block.len().min(4000)])),
+            );
+        }
+    };
+    match res {
+        Ok(mh) => {
+            obs.label("accepted");
+            let what = format!("{} (code {:#x})", b.label, b.code);
+            let Some(blk) = ref_block else {
+                return obs.fail("C10:accepted-undecodable-block", format!("{what}: hash Ok although the block is no bitswap.Block protobuf"));
+            };
+            let Some(id) = ref_id else {
+                return obs.fail("C10:accepted-malformed-id", format!("{what}: hash Ok although the embedded CID {} is no valid identifier of the type selected by the multihash code", hex::encode(&blk.cid)));
+            };
+            let Some(h) = ref_hdr else {
+                return obs.fail("C10:accepted-unknown-height", format!("{what}: hash Ok for {id:?} although no header of that height is stored"));
+            };
+            if let Err(why) = container_is_data_at(h, &id, &blk.container) {
+                obs.fail("C10:accepted-container-is-not-data-at-id", format!("{what}: hash Ok for {id:?} (square width {}), but {why}", h.w))?;
+            }
+            if mh != id.multihash_bytes() {
+                obs.fail("C10:wrong-multihash", format!("{what}: hash returned {} but multihash(id) is {}", hex::encode(&mh), hex::encode(id.multihash_bytes())))?;
+            }
+        }
+        Err(e) => {
+            obs.label("rejected");
+            if b.must_accept {
+                obs.fail("C10:honest-rejected", format!("honest block {:?} ({}) rejected: {e}", b.base, b.label))?;
+            }
+            if b.label == "unknown-multihash-code" && e != hook::HashError::UnknownMultihashCode {
+                obs.note(format!("unknown multihash code reported as {e:?} rather than UnknownMultihashCode"));
+            }
+        }
+    }
+    Ok(())
+}
+
+/// `get_block_container(expected, block)` returns the container iff the embedded CID equals `expected`.
+fn judge_gbc(obs: &mut Obs, b: &Built, esel: u8) -> Result<(), Failure> {
+    let ref_block = Block::decode(b.block.as_slice()).ok();
+    let embedded: Option<Cid> = ref_block.as_ref().and_then(|blk| Cid::read_bytes(blk.cid.as_slice()).ok());
+    // expected CID: what the requester asked for (base id), or the embedded one, or a neighbour
+    let base_cid = Cid::read_bytes(b.base.cid_bytes().as_slice()).expect("base cid parses");
+    let (expected, elabel) = match (esel % 4, &embedded) {
+        (0, Some(e)) => (*e, "gbc-expected-is-embedded"),
+        (1, _) => {
+            let o = match &b.base {
+                Id::Sample { h, r, c } => Id::Sample { h: *h, r: *r, c: c.wrapping_add(1) },
+                Id::Row { h, i } => Id::Row { h: *h, i: i.wrapping_add(1) },
+                Id::RowNs { h, i, ns } => Id::RowNs { h: h.wrapping_add(1).max(1), i: *i, ns: *ns },
+            };
+            (Cid::read_bytes(o.cid_bytes().as_slice()).expect("cid parses"), "gbc-expected-is-neighbour")
+        }
+        _ => (base_cid, "gbc-expected-is-requested"),
+    };
+    let equal = embedded.as_ref() == Some(&expected);
+    let nontrivial = !equal || b.faulty;
+    obs.eval(nontrivial.then(|| digest_bytes(&b.block) ^ digest_bytes(&expected.to_bytes())));
+    obs.label(elabel);
+    obs.label(if equal { "gbc-cid-equal" } else { "gbc-cid-differs" });
+    let res = match no_panic(|| hook::get_block_container(&expected, &b.block)) {
+        Ok(r) => r,
+        Err(rec) => return obs.fail(&panic_sig(&rec), format!("get_block_container panicked on {}: {rec}", hex::encode(&b.block[..b.block.len().min(2000)]))),
+    };
+    match res {
+        Ok(c) => {
+            obs.label("gbc-returned");
+            if !equal {
+                obs.fail("C10:get-block-container-cid-not-equal", format!("container returned although the embedded CID {:?} differs from the expected {expected} ({})", embedded.map(|c| c.to_string()), b.label))?;
+            }
+            if Some(&c) != ref_block.as_ref().map(|b| &b.container) {
+                obs.fail("C10:get-block-container-wrong-bytes", format!("returned bytes are not the block's container field ({})", b.label))?;
+            }
+        }
+        Err(e) => {
+            obs.label("gbc-refused");
+            if equal {
+                obs.fail("C10:get-block-container-refused-equal-cid", format!("embedded CID equals the expected {expected} but the container was refused: {e}"))?;
+            }
+        }
+    }
+    Ok(())
+}
+
+fn build_env(case: &Case) -> Result<Env, Failure> {
+    let spec = ChainSpec {
+        seed: case.seed,
+        chain_id: "private".into(),
+        start_height: case.start_height,
+        app_version: case.app,
+        time_base: TimeBase::Fixed(1_600_000_000 + case.seed % 100_000_000),
+        set0: (0..case.validators).map(|i| (i, 10 + i as u64)).collect(),
+        blocks: case
+            .squares
+            .iter()
+            .map(|s| BlockSpec {
+                dt_ms: 6000,
+                votes: vec![],
+                dah: match s {
+                    Some(s) => DahKind::Square(s.clone()),
+                    None => DahKind::Empty,
+                },
+                next_set: None,
+            })
+            .collect(),
+    };
+    let chain = build_chain(&spec);
+    let store = Arc::new(InMemoryStore::new());
+    let headers: Vec<ExtendedHeader> = chain.headers.clone();
+    futures::executor::block_on(store.insert(headers)).map_err(|e| Failure::new("gen", format!("store refused the generated chain: {e}")))?;
+    let hdrs = chain
+        .headers
+        .iter()
+        .zip(chain.squares.iter())
+        .map(|(hd, sq)| {
+            let eds = sq.clone().unwrap_or_else(ExtendedDataSquare::empty);
+            let w = eds.square_width();
+            let half = w / 2;
+            let mut present: Vec<[u8; NS]> = (0..half).flat_map(|r| (0..half).map(move |c| (r, c))).map(|(r, c)| eds.share(r, c).unwrap().as_ref()[..NS].try_into().unwrap()).collect();
+            present.sort();
+            present.dedup();
+            Hdr { height: hd.height(), dah: hd.dah.clone(), eds, w, present }
+        })
+        .collect();
+    Ok(Env { store, hdrs })
+}
+
+fn run_store_case(case: &Case, obs: &mut Obs) -> Result<(), Failure> {
+    let env = build_env(case)?;
+    // systematic honest blocks: per header one sample per axis, one data row, one parity row, every
+    // present namespace in its first row
+    for (hi, h) in env.hdrs.iter().enumerate() {
+        let hsel = ((hi as u32 * 65536 + 32768) / env.hdrs.len() as u32) as u16;
+        debug_assert_eq!(pick(hsel, env.hdrs.len()), hi);
+        let mut kinds = vec![
+            Kind::Sample { r: (case.seed >> 8) as u16, c: (case.seed >> 24) as u16, col_axis: false },
+            Kind::Sample { r: (case.seed >> 12) as u16, c: (case.seed >> 28) as u16, col_axis: true },
+            Kind::Row { i: 0 },
+            Kind::Row { i: 65535 },
+            Kind::RowNs { ns: NsSel::Parity, row: 65535 },
+        ];
+        for k in 0..h.present.len().min(6) {
+            let sel = ((k as u32 * 65536 + 32768) / h.present.len() as u32) as u16;
+            kinds.push(Kind::RowNs { ns: NsSel::Present(sel), row: 1 });
+        }
+        for kind in kinds {
+            let b = build_block(&env, &BlockCase { hsel, kind, fault: Fault::None, esel: 2 });
+            judge_hash(obs, &env, &b)?;
+        }
+    }
+    for bc in &case.blocks {
+        let b = build_block(&env, bc);
+        judge_hash(obs, &env, &b)?;
+    }
+    Ok(())
+}
+
+fn run_gbc_case(case: &Case, obs: &mut Obs) -> Result<(), Failure> {
+    let env = build_env(case)?;
+    for bc in &case.blocks {
+        let b = build_block(&env, bc);
+        judge_gbc(obs, &b, bc.esel)?;
+    }
+    Ok(())
+}
+
+// ------------------------------------------------------------------------------------------ C15 (node half): convert_cid
+
+#[derive(Clone, Debug, Serialize, Deserialize)]
+pub enum CidCase {
+    Sample { r: u16, c: u16, h: u64 },
+    Row { i: u16, h: u64 },
+    RowNs { ns: NsSel, i: u16, h: u64 },
+    /// arbitrary CIDv1 held in a CidGeneric<128>
+    Generic { codec: u64, code: u64, len: u8, seed: u64 },
+    V0 { seed: u64 },
+}
+
+fn height_strategy() -> impl Strategy<Value = u64> {
+    prop_oneof![Just(1u64), Just(2), Just(1 << 32), Just(1 << 63), Just(u64::MAX), any::<u64>(), 1u64..100_000, Just(0u64)]
+}
+
+fn index_strategy() -> impl Strategy<Value = u16> {
+    prop_oneof![Just(0u16), Just(1), Just(1 << 15), Just(65535), any::<u16>()]
+}
+
+fn cid_case_strategy() -> impl Strategy<Value = CidCase> {
+    let code = prop_oneof![Just(0x12u64), Just(0x7811), Just(0x7801), Just(0x7821), Just(0u64), Just(u64::MAX), any::<u64>()];
+    let codec = prop_oneof![Just(0x55u64), Just(0x70), Just(0x7810), Just(0x7800), Just(0x7820), any::<u64>()];
+    let len = prop_oneof![Just(0u8), Just(10), Just(12), Just(32), Just(39), Just(63), Just(64), Just(65), Just(66), Just(127), Just(128), 0u8..=128];
+    prop_oneof![
+        3 => (index_strategy(), index_strategy(), height_strategy()).prop_map(|(r, c, h)| CidCase::Sample { r, c, h }),
+        2 => (index_strategy(), height_strategy()).prop_map(|(i, h)| CidCase::Row { i, h }),
+        3 => (ns_sel_strategy(), index_strategy(), height_strategy()).prop_map(|(ns, i, h)| CidCase::RowNs { ns, i, h }),
+        4 => (codec, code, len, any::<u64>()).prop_map(|(codec, code, len, seed)| CidCase::Generic { codec, code, len, seed }),
+        1 => any::<u64>().prop_map(|seed| CidCase::V0 { seed }),
+    ]
+}
+
+fn check_converted<const S: usize>(obs: &mut Obs, what: &str, cid: &CidGeneric<S>, want_bytes: &[u8]) -> Result<Option<Cid>, Failure> {
+    let digest_len = cid.hash().digest().len();
+    let res = match no_panic(|| hook::convert_cid(cid)) {
+        Ok(r) => r,
+        Err(rec) => {
+            obs.fail(&panic_sig(&rec), format!("convert_cid panicked on {what}: {rec}"))?;
+            return Ok(None);
+        }
+    };
+    match res {
+        Ok(o) => {
+            obs.label("cc-converted");
+            obs.check(o.to_bytes() == want_bytes, "C15:convert-cid-changes-bytes", || format!("{what}: converted CID encodes as {} instead of {}", hex::encode(o.to_bytes()), hex::encode(want_bytes)))?;
+            obs.check(digest_len <= 64, "C15:convert-cid-accepts-oversized", || format!("{what}: digest of {digest_len} bytes converted into a 64-byte multihash"))?;
+            Ok(Some(o))
+        }
+        Err(e) => {
+            obs.label("cc-refused");
+            obs.check(digest_len > 64, "C15:convert-cid-refuses-valid", || format!("{what}: digest of {digest_len} bytes refused: {e}"))?;
+            Ok(None)
+        }
+    }
+}
+
+fn run_cid_case(c: &CidCase, obs: &mut Obs) -> Result<(), Failure> {
+    obs.eval(Some(digest_of(c)));
+    // a fixed pseudo header only for namespace selection
+    match c {
+        CidCase::Sample { r, c: col, h } => {
+            obs.label("cc-sample-id");
+            let id = SampleId::new(*r, *col, *h);
+            let sc = no_panic(|| hook::sample_cid(*r, *col, *h)).map_err(|rec| Failure::new(panic_sig(&rec), format!("sample_cid panicked: {rec}")))?;
+            if *h == 0 {
+                obs.label("cc-zero-height");
+                obs.check(id.is_err() && sc.is_err(), "C15:zero-height-accepted", || "SampleId::new / sample_cid accepted height 0".into())?;
+                return Ok(());
+            }
+            let id = id.map_err(|e| Failure::new("C15:valid-id-refused", format!("SampleId::new({r},{col},{h}): {e}")))?;
+            let want = Id::Sample { h: *h, r: *r, c: *col }.cid_bytes();
+            let small: CidGeneric<12> = id.into();
+            let big = check_converted(obs, "sample id", &small, &want)?.ok_or_else(|| Failure::new("C15:convert-cid-refuses-valid", "sample id CID refused"))?;
+            obs.check(SampleId::try_from(big) == Ok(id), "C15:convert-cid-round-trip", || format!("SampleId::try_from(convert_cid(cid)) != id for ({r},{col},{h})"))?;
+            let again = check_converted(obs, "sample id (64)", &big, &want)?;
+            obs.check(again == Some(big), "C15:convert-cid-not-idempotent", || "convert_cid of a 64-byte CID is not the identity".into())?;
+            match sc {
+                Ok(sc) => obs.check(sc == big && sc.to_bytes() == want, "C15:sample-cid", || format!("sample_cid({r},{col},{h}) = {sc}, expected {}", hex::encode(&want)))?,
+                Err(e) => obs.fail("C15:sample-cid", format!("sample_cid({r},{col},{h}) failed: {e}"))?,
+            }
+        }
+        CidCase::Row { i, h } => {
+            obs.label("cc-row-id");
+            let id = RowId::new(*i, *h);
+            if *h == 0 {
+                obs.label("cc-zero-height");
+                return obs.check(id.is_err(), "C15:zero-height-accepted", || "RowId::new accepted height 0".into());
+            }
+            let id = id.map_err(|e| Failure::new("C15:valid-id-refused", format!("RowId::new({i},{h}): {e}")))?;
+            let want = Id::Row { h: *h, i: *i }.cid_bytes();
+            let small: CidGeneric<10> = id.into();
+            let big = check_converted(obs, "row id", &small, &want)?.ok_or_else(|| Failure::new("C15:convert-cid-refuses-valid", "row id CID refused"))?;
+            obs.check(RowId::try_from(big) == Ok(id), "C15:convert-cid-round-trip", || format!("RowId::try_from(convert_cid(cid)) != id for ({i},{h})"))?;
+        }
+        CidCase::RowNs { ns, i, h } => {
+            obs.label("cc-rowns-id");
+            let nsb: [u8; NS] = match ns {
+                NsSel::Present(k) | NsSel::AbsentInRange(k) | NsSel::User(k) => user_ns((*k).max(1)).as_bytes().try_into().unwrap(),
+                NsSel::Below => [0; NS],
+                NsSel::Above => {
+                    let mut n = PARITY_NS;
+                    n[NS - 1] = 0xfd;
+                    n
+                }
+                NsSel::Tx => Namespace::TRANSACTION.as_bytes().try_into().unwrap(),
+                NsSel::Pfb => Namespace::PAY_FOR_BLOB.as_bytes().try_into().unwrap(),
+                NsSel::PrimaryPadding => Namespace::PRIMARY_RESERVED_PADDING.as_bytes().try_into().unwrap(),
+                NsSel::TailPadding => Namespace::TAIL_PADDING.as_bytes().try_into().unwrap(),
+                NsSel::Parity => PARITY_NS,
+            };
+            let n = Namespace::from_raw(&nsb).map_err(|e| Failure::new("gen", format!("namespace: {e}")))?;
+            let id = RowNamespaceDataId::new(n, *i, *h);
+            if *h == 0 {
+                obs.label("cc-zero-height");
+                return obs.check(id.is_err(), "C15:zero-height-accepted", || "RowNamespaceDataId::new accepted height 0".into());
+            }
+            let id = id.map_err(|e| Failure::new("C15:valid-id-refused", format!("RowNamespaceDataId::new: {e}")))?;
+            let want = Id::RowNs { h: *h, i: *i, ns: nsb }.cid_bytes();
+            let small: CidGeneric<39> = id.into();
+            let big = check_converted(obs, "row namespace data id", &small, &want)?.ok_or_else(|| Failure::new("C15:convert-cid-refuses-valid", "row namespace data id CID refused"))?;
+            obs.check(RowNamespaceDataId::try_from(big) == Ok(id), "C15:convert-cid-round-trip", || format!("RowNamespaceDataId::try_from(convert_cid(cid)) != id for ({i},{h})"))?;
+        }
+        CidCase::Generic { codec, code, len, seed } => {
+            let digest = Prng::new(*seed).bytes(*len as usize);
+            let mh = Multihash::<128>::wrap(*code, &digest).map_err(|e| Failure::new("gen", format!("multihash: {e}")))?;
+            let cid = CidGeneric::<128>::new_v1(*codec, mh);
+            let want = cid_bytes(1, *codec, *code, &digest);
+            obs.label(if *len > 64 { "cc-generic-oversized" } else { "cc-generic-fits" });
+            obs.check(cid.to_bytes() == want, "gen", || "hand-encoded CID differs from the cid crate's".into())?;
+            check_converted(obs, "generic CIDv1", &cid, &want)?;
+        }
+        CidCase::V0 { seed } => {
+            obs.label("cc-v0");
+            let digest = Prng::new(*seed).bytes(32);
+            let mh = Multihash::<128>::wrap(0x12, &digest).unwrap();
+            let cid = CidGeneric::<128>::new_v0(mh).map_err(|e| Failure::new("gen", format!("cid v0: {e}")))?;
+            let want = cid.to_bytes();
+            if let Some(o) = check_converted(obs, "CIDv0", &cid, &want)? {
+                obs.check(o.version() == cid::Version::V0, "C15:convert-cid-changes-bytes", || "CIDv0 converted to another version".into())?;
+            }
+        }
+    }
+    Ok(())
+}
+
+// ------------------------------------------------------------------------------------------ run
+
+pub fn run(ctx: &mut Ctx) {
+    ctx.assume("ground truth: squares from the harness' generator extended by ExtendedDataSquare::from_ods, stored headers from lv_gen::chain (accepted by InMemoryStore::insert, i.e. validated and linked); accepted containers are judged by value against a brute-force index of the stored square (eds.share(r,c), the full row, a scan of the namespace in the row), identifiers and multihashes are parsed/encoded by hand");
+    ctx.assume("honest containers are produced by Sample::new / Row shares / ExtendedDataSquare::get_namespace_data of celestia-types; honest => accepted is asserted for those (for row-namespace-data only when the row's root range covers the namespace)");
+    ctx.assume("a panic inside ShwapMultihasher::hash, get_block_container or convert_cid is a violation (C10: 'otherwise it reports an error'); panics originating in nmt-rs are tracked as open known findings owned by C16");
+    ctx.assume("row-namespace-data for the PARITY namespace in a data row (row < width/2): the NMT ignores the max namespace, so the row root's range excludes the parity leaves; both the empty answer and the brute-force scan are admitted there (no caller requests it: DataAvailabilityHeader::row_contains is false)");
+    ctx.assume("get_block_container: 'embedded CID' is the CID parsed from the block's cid field by the cid crate (a prefix parse, as the code does); equality is equality of parsed CIDs");
+    ctx.essential(&[
+        "honest-sample",
+        "honest-row",
+        "honest-rowns",
+        "accepted",
+        "rejected",
+        "unknown-height",
+        "other-stored-height",
+        "other-id-sample-same-row",
+        "other-id-sample-same-col",
+        "other-id-row",
+        "other-id-rowns-namespace",
+        "other-id-rowns-row",
+        "other-type-container",
+        "cid-wrong-codec",
+        "cid-wrong-multihash-code",
+        "cid-wrong-length",
+        "cid-zero-height",
+        "cid-invalid-namespace",
+        "code-cid-type-mismatch",
+        "unknown-multihash-code",
+        "alter-share",
+        "proof-shift-range",
+        "proof-drop-node",
+        "container-byte-mutation",
+        "truncated-block",
+        "fault-reaches-container-verification",
+        "gbc-cid-equal",
+        "gbc-cid-differs",
+        "gbc-returned",
+        "gbc-refused",
+        "cc-sample-id",
+        "cc-row-id",
+        "cc-rowns-id",
+        "cc-generic-oversized",
+        "cc-generic-fits",
+        "cc-zero-height",
+    ]);
+    let stores = ctx.tier.pick(400, 6000);
+    let nblocks = ctx.tier.pick(120, 160);
+    let max_log2 = ctx.tier.pick(3, 4); // ODS width 1..8 = EDS width 2..16 (thorough: EDS 32)
+    ctx.proptest(
+        "multihasher",
+        "per case: InMemoryStore holding a generated chain of 3..8 headers (1..3 validators, start height 1 / small / 2^32..2^40) over real squares of EDS width 2..16 (thorough 32) (or the empty block); 1..240 (avg ~120) generated blocks plus systematic honest ones, Block{cid, container} passed to the real ShwapMultihasher with a multihash code: honest Sample (both axes) / Row (left and right half) / RowNamespaceData (present, absent-in-range, below/above, reserved, parity namespaces; rows inside and outside the namespace range), and faults: id of an unknown height, of another stored height, of another coordinate/row/namespace, container of another type, CID with wrong codec / multihash code / digest length / length field / version / zero height / invalid namespace / trailing bytes / v0 / byte mutations, code-CID type mismatch, unknown multihash code, typed container mutations (share altered/foreign/dropped/duplicated/swapped/cleared/neighbour-namespace shares added, proof range shifted or set to integer boundaries, nodes dropped/duplicated/swapped/truncated/foreign/bit-flipped/namespace-swapped, leaf hash edits, ignore-max flag, proof of another position, proof dropped), generic byte/protobuf mutations of container and block, truncated/empty block. hash Ok(mh) => block decodes, embedded CID is a well-formed id of the code's type (reference parser), its height is stored, the container is by value the data at the id in that square, mh == multihash(id); honest => Ok; never a panic. Non-trivial = fault case whose id resolves to a stored header and whose container lumina's decoder accepts (reaches container.verify); distinct by block bytes + code",
+        stores,
+        move || case_strategy(nblocks, max_log2),
+        run_store_case,
+    );
+    let gbc_cases = ctx.tier.pick(160, 1600);
+    ctx.proptest(
+        "get-block-container",
+        "same block generator; get_block_container(expected, block) with expected = the requested id's CID, the embedded CID, or a neighbouring id's CID: Ok(c) <=> block decodes and its embedded CID (parsed) equals expected, and c is the block's container field. Non-trivial = CIDs differ or the block carries a fault",
+        gbc_cases,
+        move || case_strategy(nblocks, 2),
+        run_gbc_case,
+    );
+    let cid_cases = ctx.tier.pick(100_000, 1_000_000);
+    ctx.proptest(
+        "c15-convert-cid",
+        "node half of C15: ids of the three CID-bearing Shwap types over boundary heights {0,1,2,2^32,2^63,u64::MAX,random}, indices {0,1,2^15,65535,random}, reserved/user/parity namespaces: CidGeneric<SIZE>::from(id) -> convert_cid -> 64-byte Cid has the hand-encoded bytes, Id::try_from gives the id back, conversion is idempotent, sample_cid agrees, height 0 is refused; arbitrary CIDv1/v0 in a CidGeneric<128> with digest lengths 0..128: converted iff digest <= 64 bytes, bytes preserved. Every case non-trivial (distinct by recipe)",
+        cid_cases,
+        cid_case_strategy,
+        run_cid_case,
+    );
 }
